@@ -22,7 +22,7 @@ def shortRef (r : Nat) : String :=
 
 def parseVM (j : Json) : NVM :=
   { id := jStr j "id", pfx := jStr j "pfx", frag := jStr j "frag", idEmpty := jBool j "idEmpty",
-    typeBlank := jBool j "typeBlank", ctrlEmpty := jBool j "ctrlEmpty", key := KeyInfo.ofBody (jStr j "key") }
+    typeBlank := jBool j "typeBlank", ctrlEmpty := jBool j "ctrlEmpty", pkUnsupported := jBool j "pkUnsupported", key := KeyInfo.ofBody (jStr j "key") }
 
 def parseSvc (j : Json) : NSvc :=
   { id := jStr j "id", pfx := jStr j "pfx", frag := jStr j "frag", type := jStr j "type", idBlank := jBool j "idBlank",
@@ -133,7 +133,8 @@ def step (st : St) (j : Json) : St × List String :=
     let (tx, embDid) := parseTx (jObj j "tx")
     let pd : Option NDoc := if (jObj j "doc").isNull then none else some (parseDoc (jObj j "doc"))
     let c := cfgFor tx.embedded embDid
-    let r := if st.verify then deliver c st.store tx pd else callback c st.store tx pd
+    let cbOnly := if jHas j "cb" then jBool j "cb" else !st.verify
+    let r := if cbOnly then callback c st.store tx pd else deliver c st.store tx pd
     let hdr := s!"pair {jInt j "h"}.{jNat j "i"}"
     match r with
     | .ok s' =>
@@ -146,6 +147,12 @@ def step (st : St) (j : Json) : St × List String :=
       ({ st' with lastObs := o }, [s!"{hdr} ok [{if dup then "db-same" else "db-changed"}] {shown}"])
     | .err e => (st, [s!"{hdr} err:{e} [db-same] ="])
     | .panic x => (st, [s!"{hdr} panic:{x} [db-same] ="])
+  | "verify" =>
+    -- the DAG's signature verifier alone, at the store state of this moment (delayed-VDR schedule)
+    let (tx, _) := parseTx (jObj j "tx")
+    let cls := match verifySig st.store tx with
+      | .ok () => "admit" | .err e => "err:" ++ e | .panic x => "panic:" ++ x
+    (st, [s!"verify {jInt j "h"}.{jNat j "i"} {cls}"])
   | o => (st, ["bad-op:" ++ o])
 
 end Nuts.Drv.C09
